@@ -61,7 +61,7 @@ func c14ProbeSet(c *core.Ctx) [][]byte {
 var c14Limits = []uint32{0, 3072, 2}
 
 func opFromInt(v int) extOp {
-	return extOp{Same: v >= 20000, Dup: v%20000 >= 10000, Attach: (v % 10000) / 100, Pred: (v / 10) % 10, Aliases: v % 10}
+	return extOp{AliasBuiltin: v >= 40000, Same: v%40000 >= 20000, Dup: v%20000 >= 10000, Attach: (v % 10000) / 100, Pred: (v / 10) % 10, Aliases: v % 10}
 }
 func opToInt(o extOp) int {
 	v := o.Attach*100 + o.Pred*10 + o.Aliases
@@ -70,6 +70,9 @@ func opToInt(o extOp) int {
 	}
 	if o.Same {
 		v += 20000
+	}
+	if o.AliasBuiltin {
+		v += 40000
 	}
 	return v
 }
@@ -319,6 +322,9 @@ func c14Fresh(c *core.Ctx, args []string) int {
 		for i := 0; i < op.Aliases; i++ {
 			aliases = append(aliases, fmt.Sprintf("x/e%d-alias%d", k+1, i+1))
 		}
+		if op.AliasBuiltin && op.Aliases > 0 {
+			aliases[0] = "text/html"
+		}
 		pred := extPreds[op.Pred].f
 		parentName, target, viaHandle := extTarget(op, prev, handle1)
 		if viaHandle {
@@ -499,7 +505,7 @@ func c14Run(c *core.Ctx) {
 					continue
 				}
 				one := []extOp{{Attach: a1, Pred: p1, Same: true, Aliases: p1 % 2}}
-				hs := [][]extOp{one}
+				hs := [][]extOp{one, {{Attach: a1, Pred: p1, Aliases: 2, AliasBuiltin: true}}, {{Attach: a1, Pred: p1, Aliases: 1, AliasBuiltin: true}, {Attach: 5, Pred: 1}}}
 				for _, a2 := range []int{0, 2, 8, 9} {
 					for _, p2 := range []int{1, 2, 4} {
 						hs = append(hs, []extOp{one[0], {Attach: a2, Pred: p2, Aliases: 1}}, []extOp{{Attach: a2 % 8, Pred: p2}, one[0]})
